@@ -706,15 +706,20 @@ def mid_range(case, ctx):
     # 2. the inverse helper on the default spectrum (N a power of two)
     _check_inverse(ctx, "default spectrum (npts=%d)" % n, ctx.lib(lambda: sig.fa_spectrum), rec, dt, N0, ["default", "signal", "acc"][seed % 3], form)
     _check_spectrum(ctx, "the object's spectrum after it was passed to the inverse helper", ctx.lib(lambda: sig.fa_spectrum), ctx.lib(lambda: sig.fa_freqs), rec, dt, N0)
-    # 3. p2_plus, object and array level
-    p2 = 1 + (seed // 5) % (3 if N0 <= 2 ** 17 else 2 if N0 <= 2 ** 19 else 1)
-    Np = next_pow2(n, p2)
-    ctx.libf(form, sig.gen_fa_spectrum, ["p2_plus"], p2_plus=p2)
-    sp, fp = np.array(sig.fa_spectrum), np.array(sig.fa_freqs)
-    _check_spectrum(ctx, "gen_fa_spectrum(p2_plus=%d)" % p2, sp, fp, rec, dt, Np, bins=_seam_bins(Np // 2, seed + 1, 8))
-    _agree(ctx, "calc_fa_spectrum(p2_plus=%d) vs object (npts=%d)" % (p2, n), ctx.lib(fr.calc_fa_spectrum, sig, p2_plus=p2), sp, fp, rec, dt, Np)
+    # 3. p2_plus, object and array level: every value 1..3 whose transform stays below the tier's cap (a window may be defined on
+    #    npts x 2^p2_plus)
+    cap = 2 ** 21 if core.tier() == "quick" else 2 ** 23
+    p2s = [q for q in (1, 2, 3) if N0 * 2 ** q <= cap] or [1]
+    p2 = p2s[(seed // 5) % len(p2s)]
+    for q in p2s:
+        Np = next_pow2(n, q)
+        ctx.libf(form if q == p2 else "kw", sig.gen_fa_spectrum, ["p2_plus"], p2_plus=q)
+        sp, fp = np.array(sig.fa_spectrum), np.array(sig.fa_freqs)
+        _check_spectrum(ctx, "gen_fa_spectrum(p2_plus=%d)" % q, sp, fp, rec, dt, Np, bins=_seam_bins(Np // 2, seed + q, 8) if q == p2 else None)
+        _agree(ctx, "calc_fa_spectrum(p2_plus=%d) vs object (npts=%d)" % (q, n), ctx.lib(fr.calc_fa_spectrum, sig, p2_plus=q), sp, fp, rec, dt, Np)
+        if q == p2:
+            _check_dominant(ctx, "max_fa_period (npts=%d, after gen_fa_spectrum(p2_plus=%d))" % (n, q), sig, rec, dt, [Np, N0])
     _agree(ctx, "calc_fa_spectrum(p2_plus=0) vs default (npts=%d)" % n, ctx.lib(fr.calc_fa_spectrum, sig, p2_plus=0), s0, f0, rec, dt, N0)
-    _check_dominant(ctx, "max_fa_period (npts=%d, after gen_fa_spectrum(p2_plus=%d))" % (n, p2), sig, rec, dt, [Np, N0])
     # 4. requested n, object and array level; both options
     Nr = _req_n(n, seed, "nr")
     ctx.cls("N-odd" if Nr % 2 else "N-even")
